@@ -3,10 +3,12 @@
 # recorded as catching it (the property's own check where none is: those lines are expected to read exit=0), undo the patch straight afterwards.  Writes seeded/CONFIRM.txt.
 cd "$(dirname "$0")/.."
 out=seeded/CONFIRM.txt
-: > $out
+[ -n "$RESUME" ] || : > $out      # RESUME=1: keep the lines already there and skip their seeds
+export VERIF_MAX_JUDGED=${VERIF_MAX_JUDGED:-1}   # one judged violation is enough to see exit=1
 [ -n "$(git -C /repo status --porcelain --untracked-files=no)" ] && { echo "/repo not clean"; exit 2; }
 for d in seeded/C*/; do
   k=$(basename $d)
+  grep -q "^$k " $out && continue
   checks=$(/venv/bin/python -c "import json;m=json.load(open('$d/meta.json'));w={'C10':2,'C14':2,'C16':6,'C17':8,'C15':9,'C05':13,'C13':13,'C08':19,'C07':21,'C11':24,'C06':30,'C12':33,'C01':55,'C04':63,'C18':64,'C02':74,'C03':89,'C09':129};print(min(m['caught_by'] or [m['property']], key=lambda c:w.get(c,99)))")
   p=$PWD/$d/patch.diff; [ -f $d/patch_ported.diff ] && p=$PWD/$d/patch_ported.diff; git -C /repo apply $p || { echo "$k patch does not apply" | tee -a $out; continue; }
   for c in $checks; do
